@@ -1,3 +1,4 @@
+mod cli;
 mod gen;
 mod hung;
 mod node;
@@ -93,6 +94,14 @@ fn main() {
             opt_arg(&args, "--replay"),
         ),
         "qual" => qual::run(arg(&args, "--seed", 1u64), arg(&args, "--count", 200usize), shards, &outdir),
+        "cligen" => cli::run(
+            arg(&args, "--seed", 1u64),
+            arg(&args, "--count", 40usize),
+            arg(&args, "--max-c", 6usize),
+            arg(&args, "--max-p", 9usize),
+            arg(&args, "--rooms", 2usize),
+            &outdir,
+        ),
         other => {
             eprintln!("unknown subcommand {}", other);
             std::process::exit(2);
